@@ -56,8 +56,15 @@ class COOData:
             raise NotImplementedError("Cannot build local matrices if "
                                       "local_shape is not specified.")
 
-        local = np.moveaxis(self.data.reshape(self.local_shape + (-1,),
-                                              order='C'), -1, 0)
+        if len(self.local_shape) == 2:
+            # the data of a bilinear form is ordered by (trial function,
+            # test function, element) and local_shape is (test, trial)
+            local = (self.data.reshape(self.local_shape[::-1] + (-1,),
+                                       order='C')
+                     .transpose(2, 1, 0))
+        else:
+            local = np.moveaxis(self.data.reshape(self.local_shape + (-1,),
+                                                  order='C'), -1, 0)
         if basis is not None:
             out = np.zeros((basis.mesh.nfacets,) + local.shape[1:])
             out[basis.find] = local
@@ -67,6 +74,12 @@ class COOData:
 
     def fromlocal(self, local):
         """Reverse of :meth:`COOData.tolocal`."""
+        if len(local.shape) == 3:
+            # inverse of the ordering in tolocal
+            return replace(
+                self,
+                data=local.transpose(2, 1, 0).flatten('C'),
+            )
         return replace(
             self,
             data=np.moveaxis(local, 0, -1).flatten('C'),
